@@ -104,6 +104,35 @@ def cases(draw, name, tier):
     return case
 
 
+@st.composite
+def big_number_cases(draw):
+    """parameters and lengths beyond 256 (small-int cache) and beyond any plausible internal threshold"""
+    name = draw(st.sampled_from(["islice", "islice", "batched", "enumerate", "tee", "zip", "chain", "cycle"]))
+    n_items = draw(st.sampled_from([258, 300, 520]))
+    items = [["I", i % 4, i] for i in range(n_items)]
+    src = {"items": items, "fl": draw(st.sampled_from(["agen", "list", "iter"])), "susp": 0, "csusp": False,
+           "fault": None}
+    case = {"tool": name, "profile": "item", "srcs": [src], "fns": {}, "params": {}, "close": True, "keep": False}
+    big = draw(st.sampled_from([256, 257, 258, 260, 299]))
+    if name == "islice":
+        case["params"]["args"] = draw(st.sampled_from([[big, None], [big, big + 3], [big, None, 7], [None, big],
+                                                       [1, big, 129], [big - 1, big + 1, 1]]))
+    elif name == "batched":
+        case["params"].update(n=big, strict=draw(st.booleans()))
+    elif name == "enumerate":
+        case["params"]["start"] = draw(st.sampled_from([256, 257, 2 ** 31, 2 ** 70, -(2 ** 70)]))
+    elif name == "tee":
+        case["params"]["n"] = 2
+    elif name == "zip":
+        case["params"]["strict"] = draw(st.booleans())
+        case["srcs"].append(dict(src, items=[["I", i % 3, 1000 + i] for i in range(n_items - draw(st.integers(0, 1)))]))
+    elif name == "chain":
+        case["srcs"].append(dict(src, items=[["I", 1, 2000 + i] for i in range(3)]))
+    steps = n_items + 5 if name != "cycle" else 2 * n_items + 3
+    case["plan"] = [0] * steps if name != "tee" else [0] * (n_items // 2) + [1] * (n_items + 2) + [0] * (n_items)
+    return case
+
+
 def check_pipeline(case):
     from ..pipelines import run_both
 
@@ -129,6 +158,8 @@ def shards(tier):
     large += [Shard(f"large-{name}", check, strategy=base_case(name, max_len=30, min_len=12),
                     n=300, nontrivial=nontrivial, classify=classify, thorough_mult=15)
               for name in ("islice", "batched", "tee", "cycle", "pairwise", "accumulate", "takewhile", "dropwhile")]
+    large += [Shard(f"big-numbers-{i}", check, strategy=big_number_cases(), n=25, nontrivial=lambda c: True,
+                    thorough_mult=8) for i in range(4)]
     extra = large + [Shard(f"pipelines-{i}", check_pipeline, strategy=pipelines(3 if tier == "quick" else 4), n=1500,
                    nontrivial=lambda c: len(c["items"]) >= 2, thorough_mult=15) for i in range(4)]
     return extra + [
